@@ -562,8 +562,16 @@ fill_yly_yd(
 	for (bitint_iter_t doyi = 0UL;
 	     (yd = bi383_next(&doyi, doy), doyi);) {
 		/* yd */
+		const int nyd = 365 + !(y % 4U);
 		struct md_s md;
 
+		if (UNLIKELY(!yd || yd > nyd || yd < -nyd)) {
+			/* there's no such day this year */
+			continue;
+		} else if (yd < 0) {
+			/* count from the end of the year */
+			yd += nyd + 1;
+		}
 		if (wd_mask >> 1U &&
 		    !((wd_mask >> yd_get_wday(y, yd)) & 0b1U)) {
 			/* weekday is masked out */
